@@ -570,7 +570,14 @@ fn get_fpA_del_ren_fraction(c: Carrier, wfactors: &Factors) -> Result<f32, EpbdE
         .ok_or_else(|| {
             EpbdError::WrongInput(format!("No se encuentra el factor de paso para \"{}\"", c))
         })
-        .map(|f| f.ren / (f.ren + f.nren))
+        // Un vector sin energía primaria (p.e. una red de calor residual con factores 0, 0) no aporta fracción renovable
+        .map(|f| {
+            if f.ren + f.nren == 0.0 {
+                0.0
+            } else {
+                f.ren / (f.ren + f.nren)
+            }
+        })
 }
 
 #[allow(non_snake_case)]
